@@ -147,6 +147,28 @@ class HarnessError(Exception):
     pass
 
 
+def _regress_main(args):
+    modname, prop = args
+    setup_env()
+    regress_viol = {}
+    nreg = 0
+    try:
+        mod = importlib.import_module(modname)
+        for fn, rec in regress_cases(prop):
+            part = [p for p in mod.PARTS if p.name == rec["part"]]
+            if not part:
+                continue
+            out = safe_run_case(part[0], rec["case"])
+            nreg += 1
+            for tag, detail in out.violations:
+                regress_viol.setdefault(tag, {"count": 0, "first": {"case": rec["case"], "detail": detail,
+                                                                   "shard": -1}, "part": part[0].name})
+                regress_viol[tag]["count"] += 1
+    except BaseException as e:
+        return regress_viol, nreg, "".join(traceback.format_exception(type(e), e, e.__traceback__))[-3000:]
+    return regress_viol, nreg, None
+
+
 def _shard_main(args):
     modname, part_index, tier, seed, shard, nshards, budget_s, avoid_tags = args
     setup_env()
@@ -356,30 +378,19 @@ def main(argv=None):
 
     merged = {}
     errors = []
-    # 1. regression corpus (plain replay, no Hypothesis)
-    regress_viol = {}
-    nreg = 0
-    try:
-        for fn, rec in regress_cases(prop):
-            part = [p for p in mod.PARTS if p.name == rec["part"]]
-            if not part:
-                continue
-            out = safe_run_case(part[0], rec["case"])
-            nreg += 1
-            for tag, detail in out.violations:
-                regress_viol.setdefault(tag, {"count": 0, "first": {"case": rec["case"], "detail": detail,
-                                                                   "shard": -1}, "part": part[0].name})
-                regress_viol[tag]["count"] += 1
-    except BaseException as e:
-        errors.append("regress: " + "".join(traceback.format_exception(type(e), e, e.__traceback__))[-3000:])
-
-    # 2. generated search, sharded
+    # 1. regression corpus (plain replay, no Hypothesis) + 2. generated search, sharded.  Everything that touches lbry
+    # runs in worker processes: the parent must stay free of threads / event loops, otherwise the forked children of a
+    # check whose lbry calls use run_in_executor dead-lock.
     ctx = multiprocessing.get_context("fork")
-    if nproc <= 1 or len(jobs) == 1:
-        results = [_shard_main(j) for j in jobs]
-    else:
-        with ctx.Pool(nproc, maxtasksperchild=1) as pool:
-            results = pool.map(_shard_main, jobs, chunksize=1)
+    with ctx.Pool(max(1, nproc), maxtasksperchild=1) as pool:
+        reg_async = pool.apply_async(_regress_main, ((modname, prop),))
+        results = pool.map(_shard_main, jobs, chunksize=1)
+        try:
+            regress_viol, nreg, reg_err = reg_async.get()
+        except BaseException as e:
+            regress_viol, nreg, reg_err = {}, 0, repr(e)
+    if reg_err:
+        errors.append("regress: " + reg_err)
     for r in results:
         if r["error"]:
             errors.append("part %s shard %s: %s" % (r["part"], r["shard"], r["error"]))
